@@ -2,6 +2,7 @@ package main
 
 import (
 	"bytes"
+	"regexp"
 	"fmt"
 	"go/ast"
 	"go/build"
@@ -59,6 +60,54 @@ type scanEval struct {
 	out     [256][]string // per byte value: the outcomes (one per opaque path)
 	limit   int
 	aborted string
+}
+
+// A path's key is its trace, followed by "\x00" and the values of the local
+// variables assigned on it ("name=expr;..."): effects and results are recorded
+// with the locals replaced by what was assigned to them, so that
+// `next = stateNeg; ...; s.step = next` is the effect `s.step = stateNeg`.
+func splitKey(k string) (trace string, env map[string]string) {
+	env = map[string]string{}
+	i := strings.Index(k, "\x00")
+	if i < 0 {
+		return k, env
+	}
+	for _, kv := range strings.Split(k[i+1:], "\x01") {
+		if j := strings.Index(kv, "="); j > 0 {
+			env[kv[:j]] = kv[j+1:]
+		}
+	}
+	return k[:i], env
+}
+
+func joinKey(trace string, env map[string]string) string {
+	if len(env) == 0 {
+		return trace
+	}
+	var ks []string
+	for k := range env {
+		ks = append(ks, k)
+	}
+	sort.Strings(ks)
+	var parts []string
+	for _, k := range ks {
+		parts = append(parts, k+"="+env[k])
+	}
+	return trace + "\x00" + strings.Join(parts, "\x01")
+}
+
+var identRe = regexp.MustCompile(`[A-Za-z_][A-Za-z0-9_]*`)
+
+func subst(text string, env map[string]string) string {
+	if len(env) == 0 {
+		return text
+	}
+	return identRe.ReplaceAllStringFunc(text, func(id string) string {
+		if v, ok := env[id]; ok {
+			return v
+		}
+		return id
+	})
 }
 
 func exprString(fset *token.FileSet, n ast.Node) string {
@@ -172,11 +221,12 @@ func (e *scanEval) evalInt(x ast.Expr, v int) (int, bool) {
 	return 0, false
 }
 
-// run interprets stmts for the values in set; trace is the effect sequence so
-// far.  Returns the set of values that fall through (did not return).
-func (e *scanEval) run(stmts []ast.Stmt, set byteSet, trace []string) (fall map[string]byteSet) {
+// run interprets stmts for the values in set, starting from the path key `key`
+// (trace and local environment).  Returns, per path key, the set of values that
+// fall through (did not return).
+func (e *scanEval) run(stmts []ast.Stmt, set byteSet, key0 string) (fall map[string]byteSet) {
 	fall = map[string]byteSet{}
-	cur := map[string]byteSet{strings.Join(trace, " ; "): set}
+	cur := map[string]byteSet{key0: set}
 	add := func(m map[string]byteSet, k string, s byteSet) {
 		old := m[k]
 		for i := range s {
@@ -186,7 +236,7 @@ func (e *scanEval) run(stmts []ast.Stmt, set byteSet, trace []string) (fall map[
 	}
 	for _, st := range stmts {
 		next := map[string]byteSet{}
-		for tr, s := range cur {
+		for key, s := range cur {
 			if s.empty() {
 				continue
 			}
@@ -195,11 +245,40 @@ func (e *scanEval) run(stmts []ast.Stmt, set byteSet, trace []string) (fall map[
 				e.aborted = "too many paths"
 				return fall
 			}
+			tr, env := splitKey(key)
+			str := func(n ast.Node) string { return subst(exprString(e.fset, n), env) }
+			with := func(text string) string { return joinKey(tr+" ; "+text, env) }
+			// locals: declarations and assignments update the environment, no effect is recorded
+			if ds, ok := st.(*ast.DeclStmt); ok {
+				if gd, ok := ds.Decl.(*ast.GenDecl); ok && gd.Tok == token.VAR {
+					for _, sp := range gd.Specs {
+						vs := sp.(*ast.ValueSpec)
+						for i, nm := range vs.Names {
+							if i < len(vs.Values) {
+								env[nm.Name] = str(vs.Values[i])
+							} else {
+								env[nm.Name] = "<zero>"
+							}
+						}
+					}
+					add(next, joinKey(tr, env), s)
+					continue
+				}
+			}
+			if as, ok := st.(*ast.AssignStmt); ok && len(as.Lhs) == 1 && len(as.Rhs) == 1 && (as.Tok == token.ASSIGN || as.Tok == token.DEFINE) {
+				if id, ok := as.Lhs[0].(*ast.Ident); ok && id.Name != e.cName {
+					if _, known := env[id.Name]; known {
+						env[id.Name] = str(as.Rhs[0])
+						add(next, joinKey(tr, env), s)
+						continue
+					}
+				}
+			}
 			switch n := st.(type) {
 			case *ast.ReturnStmt:
 				res := ""
 				if len(n.Results) > 0 {
-					res = exprString(e.fset, n.Results[0])
+					res = str(n.Results[0])
 				}
 				for v := range s {
 					if s[v] {
@@ -207,10 +286,11 @@ func (e *scanEval) run(stmts []ast.Stmt, set byteSet, trace []string) (fall map[
 					}
 				}
 			case *ast.IfStmt:
-				pre := tr
+				k := key
 				if n.Init != nil {
-					pre = tr + " ; " + exprString(e.fset, n.Init)
+					k = with(str(n.Init))
 				}
+				ktr, kenv := splitKey(k)
 				var st, sf byteSet
 				opaque := false
 				for v := range s {
@@ -230,32 +310,28 @@ func (e *scanEval) run(stmts []ast.Stmt, set byteSet, trace []string) (fall map[
 				}
 				var thenFall, elseFall map[string]byteSet
 				if opaque {
-					c := exprString(e.fset, n.Cond)
-					thenFall = e.run(n.Body.List, s, []string{pre + " ; [" + c + "]"})
+					c := subst(exprString(e.fset, n.Cond), kenv)
+					thenFall = e.run(n.Body.List, s, joinKey(ktr+" ; ["+c+"]", kenv))
 					if n.Else != nil {
-						elseFall = e.run(elseList(n.Else), s, []string{pre + " ; [!(" + c + ")]"})
+						elseFall = e.run(elseList(n.Else), s, joinKey(ktr+" ; [!("+c+")]", kenv))
 					} else {
-						elseFall = map[string]byteSet{pre + " ; [!(" + c + ")]": s}
+						elseFall = map[string]byteSet{joinKey(ktr+" ; [!("+c+")]", kenv): s}
 					}
 				} else {
-					thenFall = e.run(n.Body.List, st, []string{pre})
+					thenFall = e.run(n.Body.List, st, k)
 					if n.Else != nil {
-						elseFall = e.run(elseList(n.Else), sf, []string{pre})
+						elseFall = e.run(elseList(n.Else), sf, k)
 					} else {
-						elseFall = map[string]byteSet{pre: sf}
+						elseFall = map[string]byteSet{k: sf}
 					}
 				}
-				for k, fs := range thenFall {
-					add(next, k, fs)
+				for kk, fs := range thenFall {
+					add(next, kk, fs)
 				}
-				for k, fs := range elseFall {
-					add(next, k, fs)
+				for kk, fs := range elseFall {
+					add(next, kk, fs)
 				}
 			case *ast.SwitchStmt:
-				tagIsC := false
-				if id, ok := n.Tag.(*ast.Ident); ok && id.Name == e.cName && n.Init == nil {
-					tagIsC = true
-				}
 				if n.Tag == nil && n.Init == nil {
 					// `switch { case cond: ... }`: an if / else-if chain; decided per
 					// value when every condition depends on c alone
@@ -299,16 +375,16 @@ func (e *scanEval) run(stmts []ast.Stmt, set byteSet, trace []string) (fall map[
 									rest[v] = false
 								}
 							}
-							for k, fs := range e.run(cc.Body, hit, []string{tr}) {
-								add(next, k, fs)
+							for kk, fs := range e.run(cc.Body, hit, key) {
+								add(next, kk, fs)
 							}
 						}
 						if def != nil {
-							for k, fs := range e.run(def.Body, rest, []string{tr}) {
-								add(next, k, fs)
+							for kk, fs := range e.run(def.Body, rest, key) {
+								add(next, kk, fs)
 							}
 						} else {
-							add(next, tr, rest)
+							add(next, key, rest)
 						}
 						if !decidable {
 							e.aborted = "a case condition depends on c for some values only"
@@ -316,11 +392,15 @@ func (e *scanEval) run(stmts []ast.Stmt, set byteSet, trace []string) (fall map[
 						continue
 					}
 				}
+				tagIsC := false
+				if id, ok := n.Tag.(*ast.Ident); ok && id.Name == e.cName && n.Init == nil {
+					tagIsC = true
+				}
 				if !tagIsC {
 					// a switch on other state: every clause is an opaque branch
 					tag := ""
 					if n.Tag != nil {
-						tag = exprString(e.fset, n.Tag)
+						tag = str(n.Tag)
 					}
 					hasDefault := false
 					for _, cl := range n.Body.List {
@@ -329,19 +409,19 @@ func (e *scanEval) run(stmts []ast.Stmt, set byteSet, trace []string) (fall map[
 						if cc.List != nil {
 							var ls []string
 							for _, x := range cc.List {
-								ls = append(ls, exprString(e.fset, x))
+								ls = append(ls, str(x))
 							}
 							sort.Strings(ls)
 							label = strings.Join(ls, ",")
 						} else {
 							hasDefault = true
 						}
-						for k, fs := range e.run(cc.Body, s, []string{tr + " ; [switch " + tag + ": " + label + "]"}) {
-							add(next, k, fs)
+						for kk, fs := range e.run(cc.Body, s, with("[switch "+tag+": "+label+"]")) {
+							add(next, kk, fs)
 						}
 					}
 					if !hasDefault {
-						add(next, tr+" ; [switch "+tag+": none]", s)
+						add(next, with("[switch "+tag+": none]"), s)
 					}
 					continue
 				}
@@ -369,24 +449,24 @@ func (e *scanEval) run(stmts []ast.Stmt, set byteSet, trace []string) (fall map[
 							rest[v] = false
 						}
 					}
-					for k, fs := range e.run(cc.Body, hit, []string{tr}) {
-						add(next, k, fs)
+					for kk, fs := range e.run(cc.Body, hit, key) {
+						add(next, kk, fs)
 					}
 				}
 				if def != nil {
-					for k, fs := range e.run(def.Body, rest, []string{tr}) {
-						add(next, k, fs)
+					for kk, fs := range e.run(def.Body, rest, key) {
+						add(next, kk, fs)
 					}
 				} else {
-					add(next, tr, rest)
+					add(next, key, rest)
 				}
 			case *ast.BlockStmt:
-				for k, fs := range e.run(n.List, s, []string{tr}) {
-					add(next, k, fs)
+				for kk, fs := range e.run(n.List, s, key) {
+					add(next, kk, fs)
 				}
 			default:
-				// an effect: recorded as written
-				add(next, tr+" ; "+exprString(e.fset, st), s)
+				// an effect: recorded as written, locals replaced by their values
+				add(next, with(str(st)), s)
 			}
 		}
 		cur = next
@@ -420,11 +500,12 @@ func stateTable(fset *token.FileSet, fd *ast.FuncDecl, funcs map[string]*ast.Fun
 		return tab, "not a (s, c) function"
 	}
 	e := &scanEval{fset: fset, cName: names[1], funcs: funcs, limit: 20000}
-	fall := e.run(fd.Body.List, fullSet(), nil)
+	fall := e.run(fd.Body.List, fullSet(), "")
 	for k, s := range fall {
+		tr, _ := splitKey(k)
 		for v := range s {
 			if s[v] {
-				e.out[v] = append(e.out[v], k+" ; <end>")
+				e.out[v] = append(e.out[v], tr+" ; <end>")
 			}
 		}
 	}
@@ -682,11 +763,12 @@ func pathTraces(fset *token.FileSet, fd *ast.FuncDecl, funcs map[string]*ast.Fun
 	e := &scanEval{fset: fset, cName: "\x00none", funcs: funcs, limit: 20000}
 	var one byteSet
 	one[0] = true
-	fall := e.run(fd.Body.List, one, nil)
+	fall := e.run(fd.Body.List, one, "")
 	out := append([]string(nil), e.out[0]...)
 	for k, s := range fall {
 		if s[0] {
-			out = append(out, k+" ; <end>")
+			tr, _ := splitKey(k)
+			out = append(out, tr+" ; <end>")
 		}
 	}
 	if e.aborted != "" {
@@ -713,11 +795,12 @@ func loopTable(fset *token.FileSet, fd *ast.FuncDecl, funcs map[string]*ast.Func
 		return tab, "no range loop with a value variable"
 	}
 	e := &scanEval{fset: fset, cName: rs.Value.(*ast.Ident).Name, funcs: funcs, limit: 20000}
-	fall := e.run(rs.Body.List, fullSet(), nil)
+	fall := e.run(rs.Body.List, fullSet(), "")
 	for k, s := range fall {
+		tr, _ := splitKey(k)
 		for v := range s {
 			if s[v] {
-				e.out[v] = append(e.out[v], k+" ; <next>")
+				e.out[v] = append(e.out[v], tr+" ; <next>")
 			}
 		}
 	}
